@@ -166,6 +166,15 @@ func (f *Frame) callCommon(st *execState, c *ssa.CallCommon, rtype types.Type, p
 			return f.staticCall(st, fn, args, fv.Free, rtype, pos, hint)
 		}
 	}
+	// call through a function-typed parameter: an assumed contract may be
+	// declared for it as "param.<Function>.<parameter>"
+	if pv, ok := c.Value.(*ssa.Parameter); ok {
+		if con := e.contractFor("param." + f.fn.Name() + "." + pv.Name()); con != nil {
+			return f.packedCall(st, args, true, func() Val {
+				return f.modularCall(st, nil, con.Target, con, c.Signature(), args, rtype, pos, hint, false)
+			})
+		}
+	}
 	// call through a function value: field contract?
 	if con := f.fieldContractFor(c.Value); con != nil {
 		return f.packedCall(st, args, true, func() Val {
